@@ -276,3 +276,74 @@ def removes_exactly_that_rule_and_detaches_it(self, index, old):
 @ND.on_raise(xml.dom.DOMException, name='rejected_changes_nothing')
 def _nd_rej(self, old):
     return same_rules(self._cssRules, old['self']._cssRules) and nested_valid_media(self)
+
+
+# ------------------------------------------------------------------ nested deleteRule by RULE OBJECT (the other argument form)
+# `index` may be a rule: a member is removed (first occurrence) and detached; a rule that is NOT a member is refused with IndexSizeErr and
+# nothing at all is written - in particular not the argument's own parent link (it may sit in another nested list of the same sheet).
+NDO = register(Target('cssutils/css/cssrule.py', 'CSSRuleRules.deleteRule', ['C09', 'C11'], name='cssutils/css/cssrule.py::CSSRuleRules.deleteRule[rule object]'))
+
+
+@NDO.inputs
+def _in_ndo(I):
+    import cssutils.css as C
+    me, rules, sch = mk_container(I, C.CSSMediaRule)
+    p = I.p
+    p.counter += 1
+    rid = z3.Int(f'argrule!id!{p.counter}')
+    p.assume(rid > 0)  # any rule object: a member of the list or not
+    return {'self': me, 'index': H.SymObj(rid, sch)}
+
+
+NDO.requires.append(Clause('nested_list_is_valid', inv_media))
+NDO.ensures.append(Clause('nested_list_stays_valid', inv_media))
+
+
+@spec
+def _is_member(rules, rule):
+    return any(rules[k] is rule for k in range(len(rules)))
+
+
+@NDO.ensure
+def removes_exactly_that_member_and_detaches_it(self, index, old):
+    before = old['self']._cssRules
+    return (_is_member(before, index) and len(self._cssRules) == len(before) - 1 and not _is_member(self._cssRules, index)
+            and all(before[k] is index or (k < len(self._cssRules) and self._cssRules[k] is before[k]) or (k >= 1 and self._cssRules[k - 1] is before[k])
+                    for k in range(len(before)))
+            and index._parentRule is None)
+
+
+@NDO.on_raise(xml.dom.IndexSizeErr, name='only_a_non_member_is_refused_and_nothing_is_written')
+def _ndo_rej(self, index, old):
+    return (not _is_member(old['self']._cssRules, index) and same_rules(self._cssRules, old['self']._cssRules) and nested_valid_media(self)
+            and index._parentRule is old['index']._parentRule)
+
+
+@NDO.on_raise(xml.dom.NoModificationAllowedErr, name='only_when_readonly_and_nothing_is_written')
+def _ndo_ro(self, index, old):
+    return self._readonly and same_rules(self._cssRules, old['self']._cssRules) and index._parentRule is old['index']._parentRule
+
+
+def _ndo_native(mod, conc, model):
+    """the model's list; the argument is the member with the model's id, else a rule that sits in ANOTHER @media rule"""
+    import types
+    import cssutils.css as C
+    me, byid = build_container(C.CSSMediaRule, conc['self'])
+    rid = conc['index']['id']
+    if rid in byid:
+        rule, was = byid[rid], me
+    else:
+        other = C.CSSMediaRule()
+        rule = make_rule(STYLE)
+        list.append(other._cssRules, rule)
+        rule._parentRule = other
+        was = other
+    before = Pre(me._cssRules)
+    post = {'self': me, 'index': rule, 'old': {'self': before, 'index': types.SimpleNamespace(_parentRule=was)}}
+    try:
+        return ('return', me.deleteRule(rule), post)
+    except Exception as e:  # noqa: BLE001
+        return ('raise', e, post)
+
+
+NDO.native_call = _ndo_native
